@@ -52,6 +52,7 @@ type Effect struct {
 	Pure   bool  // call known not to modify memory
 	InLoop bool
 	Block  *ssa.BasicBlock
+	Seq    int // position in the interleaved sequence of effects and conditions of the path
 }
 
 func (e Effect) String() string {
@@ -72,6 +73,7 @@ type PathCond struct {
 	If    *ssa.If
 	// if the condition was a scalar/point atom
 	Scalar string
+	Seq    int
 }
 
 type Path struct {
@@ -141,7 +143,8 @@ func (p *Path) RetNil(i int) int {
 		}
 	}
 	// value known non-nil from a path condition "t != nil" taken
-	for _, c := range p.Conds {
+	for ci := len(p.Conds) - 1; ci >= 0; ci-- {
+		c := p.Conds[ci]
 		ct := c.Term
 		if ct.Op == "bin" && (ct.Sym == "!=" || ct.Sym == "==") {
 			var other *Term
@@ -150,7 +153,7 @@ func (p *Path) RetNil(i int) int {
 			} else if ct.Args[1].Op == "nil" {
 				other = ct.Args[0]
 			}
-			if other != nil && other.Key() == t.Key() {
+			if other != nil && (other.V != nil && t.V != nil && other.V == t.V || (other.V == nil || t.V == nil) && other.Key() == t.Key()) {
 				neq := ct.Sym == "!="
 				if neq == c.Taken {
 					return -1
@@ -189,6 +192,7 @@ type pstate struct {
 	atoms   map[string]bool
 	free    []string
 	epoch   int
+	seq     int
 	locals  map[*ssa.Alloc]*Term
 	tc      *TermCtx
 }
@@ -204,6 +208,7 @@ func (s *pstate) clone() *pstate {
 		atoms:   map[string]bool{},
 		free:    append([]string(nil), s.free...),
 		epoch:   s.epoch,
+		seq:     s.seq,
 		locals:  map[*ssa.Alloc]*Term{},
 	}
 	for k, v := range s.visits {
@@ -332,10 +337,12 @@ func (ex *executor) run(st *pstate, b *ssa.BasicBlock, from *ssa.BasicBlock) {
 				st.locals[a] = val
 				continue
 			}
-			st.effects = append(st.effects, Effect{Kind: "store", Instr: in, Addr: addr, Val: val, InLoop: ex.inLoop[b], Block: b})
+			st.seq++
+			st.effects = append(st.effects, Effect{Seq: st.seq, Kind: "store", Instr: in, Addr: addr, Val: val, InLoop: ex.inLoop[b], Block: b})
 			st.epoch++
 		case *ssa.MapUpdate:
-			st.effects = append(st.effects, Effect{Kind: "mapupdate", Instr: in, Addr: tc.Of(in.Map), Key: tc.Of(in.Key), Val: tc.Of(in.Value), InLoop: ex.inLoop[b], Block: b})
+			st.seq++
+			st.effects = append(st.effects, Effect{Seq: st.seq, Kind: "mapupdate", Instr: in, Addr: tc.Of(in.Map), Key: tc.Of(in.Key), Val: tc.Of(in.Value), InLoop: ex.inLoop[b], Block: b})
 			st.epoch++
 		case *ssa.Call:
 			t := tc.Of(in)
@@ -348,17 +355,21 @@ func (ex *executor) run(st *pstate, b *ssa.BasicBlock, from *ssa.BasicBlock) {
 					pure = true // result must be stored to have an effect
 				}
 			}
-			st.effects = append(st.effects, Effect{Kind: "call", Instr: in, Call: t, Pure: pure, InLoop: ex.inLoop[b], Block: b})
+			st.seq++
+			st.effects = append(st.effects, Effect{Seq: st.seq, Kind: "call", Instr: in, Call: t, Pure: pure, InLoop: ex.inLoop[b], Block: b})
 			if !pure {
 				st.epoch++
 			}
 		case *ssa.Go:
-			st.effects = append(st.effects, Effect{Kind: "go", Instr: in, Call: callTermOf(tc, in.Common()), InLoop: ex.inLoop[b], Block: b})
+			st.seq++
+			st.effects = append(st.effects, Effect{Seq: st.seq, Kind: "go", Instr: in, Call: callTermOf(tc, in.Common()), InLoop: ex.inLoop[b], Block: b})
 			st.epoch++
 		case *ssa.Defer:
-			st.effects = append(st.effects, Effect{Kind: "defer", Instr: in, Call: callTermOf(tc, in.Common()), InLoop: ex.inLoop[b], Block: b})
+			st.seq++
+			st.effects = append(st.effects, Effect{Seq: st.seq, Kind: "defer", Instr: in, Call: callTermOf(tc, in.Common()), InLoop: ex.inLoop[b], Block: b})
 		case *ssa.Send:
-			st.effects = append(st.effects, Effect{Kind: "send", Instr: in, Addr: tc.Of(in.Chan), Val: tc.Of(in.X), InLoop: ex.inLoop[b], Block: b})
+			st.seq++
+			st.effects = append(st.effects, Effect{Seq: st.seq, Kind: "send", Instr: in, Addr: tc.Of(in.Chan), Val: tc.Of(in.X), InLoop: ex.inLoop[b], Block: b})
 			st.epoch++
 		case *ssa.Panic:
 			ex.emit(st, nil, true)
@@ -591,7 +602,8 @@ func (ex *executor) branch(st *pstate, b *ssa.BasicBlock, in *ssa.If) {
 		neg = true
 	}
 	take := func(s *pstate, taken bool) {
-		s.conds = append(s.conds, PathCond{Term: t, Taken: taken, If: in, Scalar: r.scalar})
+		s.seq++
+		s.conds = append(s.conds, PathCond{Term: t, Taken: taken, If: in, Scalar: r.scalar, Seq: s.seq})
 		succ := b.Succs[0]
 		if !taken {
 			succ = b.Succs[1]
